@@ -58,7 +58,7 @@ Print Assumptions C14_struct_scope_nodup.
 
 (** The obligations outside any Deconflicter do NOT hold of the faithful model (F11): the
     full statements would be
-      forall names, files_ok names = true          (a)
+      forall names, files_ok names = true          (a)   (dirs_ok with --split-internal)
       forall names, NoDup names -> consts_ok names = true   (b)
       forall fs, fields_ok ms fs = true            (c)  ms = the methods generated for the struct
       forall names, globals_ok names = true        (d)
@@ -66,6 +66,10 @@ Print Assumptions C14_struct_scope_nodup.
 Theorem C14_files_case_distinct_refuted : exists names, files_ok names = false.
 Proof. exact files_case_distinct_refuted. Qed.
 Print Assumptions C14_files_case_distinct_refuted.
+
+Theorem C14_dirs_case_distinct_refuted : exists names, dirs_ok names = false.
+Proof. exact dirs_case_distinct_refuted. Qed.
+Print Assumptions C14_dirs_case_distinct_refuted.
 
 Theorem C14_consts_nodup_refuted : exists names, NoDup names /\ consts_ok names = false.
 Proof. exact consts_nodup_refuted. Qed.
@@ -99,12 +103,12 @@ Example C14_ex_camel :
 Proof. vm_compute. reflexivity. Qed.
 
 Example C14_ex_struct :
-  struct_scope [Field (lit "n") AccNone; Field (lit "x") AccFull; Field (lit "setX") AccNone; Field (lit "write") AccBit]
+  struct_scope [Field (lit "n") AccNone false; Field (lit "x") AccFull false; Field (lit "setX") AccNone false; Field (lit "write") AccBit true]
   = (map lit ["N"; "X"; "SetX"; "Write0"]%string,
      map lit ["SetX0"; "ClearX"; "IsSetX"; "SetWrite0"; "IsSetWrite0"]%string).
 Proof. vm_compute. reflexivity. Qed.
 
 Example C14_ex_ok_schema :
   files_ok [tl "a" "foo"; tl "a" "bar"] = true /\ consts_ok [tl "a" "foo"; tl "a" "bar"] = true /\
-  fields_ok struct_methods [Field (lit "x") AccFull; Field (lit "write") AccNone] = true /\ globals_ok [tl "a" "foo"] = true.
+  fields_ok struct_methods [Field (lit "x") AccFull false; Field (lit "write") AccNone false; Field (lit "string") AccBit true] = true /\ globals_ok [tl "a" "foo"] = true.
 Proof. vm_compute. repeat split; reflexivity. Qed.
